@@ -24,7 +24,7 @@ def product_factors(e: X) -> list:
 def m1(run: Run, cy: CyProgram):
     kernels = [f for f in cy.modules[CORE].funcs.values()
                if f.name.startswith("_local_cliquishness_")]
-    run.floor("cliquishness kernels", len(kernels), 2)
+    run.floor("cliquishness kernels", len(kernels), 2, hard=True)
     for f in sorted(kernels, key=lambda f: f.name):
         # the clique counter is the numerator of the normalisation statement
         # `out[i] = counter / (d (d-1) ...)` - whatever it is called
@@ -272,4 +272,4 @@ def check(run: Run, prog: Program, cy: CyProgram, sites):
                     f"allocates it with {detail['init']} ({verdict})")
     m5(run, prog)
     nm4 = m4(run, prog, "M4", "core/network.py")
-    run.floor("override pairs checked (repo-wide)", nm4, 100)
+    run.floor("override pairs checked (repo-wide)", nm4, 100, hard=True)
